@@ -105,7 +105,10 @@ def gen_frame(rng, prior_choices=("zero", "ramp")):
     asc = rng.random() < 0.5
     fmin = float(rng.choice([1000, 4096, 100]))
     fch1 = fmin if asc else fmin + (F - 1) * df
-    c = dict(T=T, F=F, df=df, dt=dt, fch1=fch1, ascending=asc, prior=rng.choice(prior_choices), seed=rng.randint(0, 999))
+    prior = rng.choice(prior_choices)
+    if prior == "float32":
+        T = max(T, 4); F = max(F, 10); fch1 = fmin if asc else fmin + (F - 1) * df      # enough pixels for the single rounding to matter somewhere
+    c = dict(T=T, F=F, df=df, dt=dt, fch1=fch1, ascending=asc, prior=prior, seed=rng.randint(0, 999))
     if rng.random() < 0.25:
         # a frame whose own time axis does not start at 0 (what Cadence.add_signal hands to a frame; exact in doubles: multiples of dt/2)
         c["ts_shift"] = rng.choice([0.5, 3.0, 7.5, 100.0])
@@ -151,6 +154,10 @@ def gen_signal(rng, c, fmin, opts_all=True, br_kinds=None):
              opts=o)
     # a discontinuous (box) profile is only compared where the doubles are exact: an edge that falls exactly on a
     # sub-sample position would otherwise flip with the last bit of p + k*dp
+    if c.get("prior") == "float32" and rng.random() < 0.75:
+        # data kept in single precision: "data after = data before + signal, rounded once to the data's type" is only put to the test by
+        # signal values that are not themselves single-precision numbers -- the rational profile with a non-dyadic coefficient
+        s["fprof"] = dict(kind="quad", a=float(rng.choice([1, 0.25, 0.1, 0.3])))
     if s["fprof"]["kind"] == "box" and o:
         for key in ("t_sub", "f_sub", "n_smear"):
             if o[key] & (o[key] - 1):
